@@ -11,35 +11,35 @@ use super::*;
 use std::sync::atomic::{AtomicPtr, AtomicUsize, Ordering};
 
 #[path = "/verif/kani/libc_model.rs"]
-mod lm;
+pub mod lm;
 
 // ---- ghost trace ---------------------------------------------------------------------------
 const GEN_LOAD: u8 = 1;
-const GEN_ADD: u8 = 2;
+pub const GEN_ADD: u8 = 2;
 const LOCK_ADD: u8 = 3; // a = slot
 const LOCK_SUB: u8 = 4; // a = slot
-const LOCK_LOAD: u8 = 5; // a = slot, b = value returned
+pub const LOCK_LOAD: u8 = 5; // a = slot, b = value returned
 const DATA_LOAD: u8 = 6; // b = pointer
 const DATA_SWAP: u8 = 7; // a = new pointer, b = old pointer
 const FREE: u8 = 8; // a = payload id
-const YIELD: u8 = 9;
-const SPIN: u8 = 10;
+pub const YIELD: u8 = 9;
+pub const SPIN: u8 = 10;
 const OTHER: u8 = 11; // an atomic that is not part of the half-lock under test
 
 #[derive(Copy, Clone)]
-struct Ev {
-    k: u8,
-    a: usize,
-    b: usize,
-    seqcst: bool,
-    rel: bool, // ordering includes Release
+pub struct Ev {
+    pub k: u8,
+    pub a: usize,
+    pub b: usize,
+    pub seqcst: bool,
+    pub rel: bool, // ordering includes Release
 }
-const CAP: usize = 24;
-static mut TR: [Ev; CAP] = [Ev { k: 0, a: 0, b: 0, seqcst: false, rel: false }; CAP];
-static mut TN: usize = 0;
+pub const CAP: usize = 24;
+pub static mut TR: [Ev; CAP] = [Ev { k: 0, a: 0, b: 0, seqcst: false, rel: false }; CAP];
+pub static mut TN: usize = 0;
 static mut CNT: [usize; 12] = [0; 12];
 static mut FIRST: [usize; 12] = [usize::MAX; 12];
-unsafe fn ev(k: u8, a: usize, b: usize, o: Option<Ordering>) {
+pub unsafe fn ev(k: u8, a: usize, b: usize, o: Option<Ordering>) {
     assert!(TN < CAP, "ghost trace capacity (harness bug, not a property)");
     TR[TN] = Ev { k, a, b, seqcst: matches!(o, Some(Ordering::SeqCst)), rel: matches!(o, Some(Ordering::SeqCst) | Some(Ordering::AcqRel) | Some(Ordering::Release)) };
     if CNT[k as usize] == 0 {
@@ -48,15 +48,15 @@ unsafe fn ev(k: u8, a: usize, b: usize, o: Option<Ordering>) {
     CNT[k as usize] += 1;
     TN += 1;
 }
-unsafe fn reset_trace() {
+pub unsafe fn reset_trace() {
     TN = 0;
     CNT = [0; 12];
     FIRST = [usize::MAX; 12];
 }
-unsafe fn count(k: u8) -> usize {
+pub unsafe fn count(k: u8) -> usize {
     CNT[k as usize]
 }
-unsafe fn first(k: u8) -> usize {
+pub unsafe fn first(k: u8) -> usize {
     FIRST[k as usize]
 }
 
@@ -64,12 +64,12 @@ unsafe fn first(k: u8) -> usize {
 static mut GEN_ADDR: usize = 0;
 static mut LOCK_ADDR: [usize; 2] = [0; 2];
 static mut DATA_ADDR: usize = 0;
-static mut ENV_ON: bool = false;
+pub static mut ENV_ON: bool = false;
 // environment budget: how many lock loads may still answer "non-zero" (readers still inside)
-static mut NONZERO_BUDGET: usize = 0;
-static mut ZERO_SEEN_AFTER_SWAP: [bool; 2] = [false; 2];
+pub static mut NONZERO_BUDGET: usize = 0;
+pub static mut ZERO_SEEN_AFTER_SWAP: [bool; 2] = [false; 2];
 
-unsafe fn track<T>(hl: &HalfLock<T>) {
+pub unsafe fn track<T>(hl: &HalfLock<T>) {
     GEN_ADDR = &hl.generation as *const AtomicUsize as usize;
     LOCK_ADDR = [&hl.lock[0] as *const AtomicUsize as usize, &hl.lock[1] as *const AtomicUsize as usize];
     DATA_ADDR = &hl.data as *const AtomicPtr<T> as usize;
@@ -118,7 +118,7 @@ pub fn usize_load(a: &AtomicUsize, o: Ordering) -> usize {
         *rawu(a)
     }
 }
-static mut SWAP_ASSUMED: usize = 0; // write_barrier harness: the swap happened before entry
+pub static mut SWAP_ASSUMED: usize = 0; // write_barrier harness: the swap happened before entry
 
 pub fn usize_fetch_add(a: &AtomicUsize, v: usize, o: Ordering) -> usize {
     unsafe {
@@ -198,7 +198,7 @@ pub fn spin_stub() {
 }
 
 // payload with an observable destructor
-pub struct Pl(u8);
+pub struct Pl(pub u8);
 impl Drop for Pl {
     fn drop(&mut self) {
         unsafe { ev(FREE, self.0 as usize, 0, None) }
@@ -247,8 +247,7 @@ hl_stubs! {
             // store/load (Dekker) pattern: it needs SeqCst on those four accesses. The generation load only
             // picks a slot (any ordering), the decrement only has to be a release.
             assert!(TR[1].seqcst && TR[2].seqcst, "C01.R-SEQCST: the reader's announcement (fetch_add) and its pointer load are SeqCst (store/load pattern against the writer's swap and counter loads)");
-            assert!(g.data as *const Pl == cur as *const Pl && TR[2].b == cur as usize, "C01.R-PTR: the guard gives out exactly the pointer loaded after the announcement");
-            assert!(g.lock as *const AtomicUsize as usize == LOCK_ADDR[TR[1].a], "C01.R-DEC: the guard remembers the slot it incremented");
+            assert!(TR[2].b == cur as usize && &*g as *const Pl == cur as *const Pl, "C01.R-PTR: the guard gives out exactly the pointer loaded after the announcement");
             assert!(g.0 == 1, "C01.R-PTR: and it dereferences to the current snapshot");
             reset_trace();
         }
@@ -266,98 +265,15 @@ hl_stubs! {
 }
 
 // HalfLock::update_seen : the inductive step of the barrier loop, full input domain
-hl_stubs! {
-    #[kani::unwind(26)]
-    fn c01_update_seen() {
-        let hl = HalfLock::new(Pl(1));
-        unsafe {
-            track(&hl);
-            ENV_ON = true;
-            NONZERO_BUDGET = usize::MAX; // any answer at all
-            reset_trace();
-        }
-        let before: [bool; 2] = [kani::any(), kani::any()];
-        let mut seen = before;
-        hl.update_seen(&mut seen);
-        unsafe {
-            // values this pass observed, by slot (1 = "not loaded")
-            let mut v = [1usize, 1usize];
-            let mut loaded = [false, false];
-            let mut i = 0;
-            while i < 2 {
-                if i < TN && TR[i].k == LOCK_LOAD {
-                    v[TR[i].a] = TR[i].b;
-                    loaded[TR[i].a] = true;
-                }
-                i += 1;
-            }
-            assert!((before[0] || loaded[0]) && (before[1] || loaded[1]), "C01.U-STEP: one pass examines every reader slot that is not yet known drained");
-            assert!(seen[0] == (before[0] || (loaded[0] && v[0] == 0)) && seen[1] == (before[1] || (loaded[1] && v[1] == 0)),
-                "C18.STICKY: a slot counts as drained iff it did before or it was observed at zero in this pass (never forgotten, never invented)");
-            assert!(TN == count(LOCK_LOAD) && TN <= 2 && (TN < 2 || TR[0].a != TR[1].a), "C01.U-STEP: a pass consists of at most one load per slot and nothing else");
-            let mut i = 0;
-            while i < 2 {
-                if i < TN {
-                    assert!(TR[i].seqcst, "C01.R-SEQCST: barrier loads are SeqCst");
-                }
-                i += 1;
-            }
-            ENV_ON = false;
-        }
-        kani::cover!(!before[0] && seen[0] && !seen[1], "C18.cover: one slot drains first");
-        std::mem::forget(hl);
-    }
-}
 
 // HalfLock::write_barrier : on return both slots were observed at zero after entry; one flip
-unsafe fn barrier_post(k_budget: usize) {
+pub unsafe fn barrier_post(k_budget: usize) {
     assert!(ZERO_SEEN_AFTER_SWAP[0] && ZERO_SEEN_AFTER_SWAP[1], "C01.W-ZERO: the barrier returns only after EACH of the two reader slots was observed at zero since the swap");
     assert!(count(GEN_ADD) == 1, "C18.FLIP-ONCE: the generation is advanced exactly once per barrier");
     let f = first(GEN_ADD);
     assert!(TR[f].a % 2 == 1, "C18.FLIP-ONCE: the flip switches new readers to the other slot (odd increment)");
     assert!(f <= 2, "C18.FLIP-BEFORE-WAIT: the flip happens before the waiting loop, so the slot being waited for only drains");
     let _ = k_budget;
-}
-hl_stubs! {
-    #[kani::unwind(8)]
-    fn c01_write_barrier_k3() {
-        let hl = HalfLock::new(Pl(1));
-        unsafe {
-            track(&hl);
-            ENV_ON = true;
-            NONZERO_BUDGET = 3;
-            SWAP_ASSUMED = 1;
-            reset_trace();
-        }
-        hl.write_barrier();
-        unsafe {
-            barrier_post(3);
-            kani::cover!(count(LOCK_LOAD) > 4, "C01.cover: barrier had to wait");
-            kani::cover!(count(YIELD) + count(SPIN) > 0, "C01.cover: barrier backed off");
-            ENV_ON = false;
-        }
-        std::mem::forget(hl);
-    }
-}
-hl_stubs! {
-    #[kani::unwind(4)]
-    fn c18_quiescent() {
-        let hl = HalfLock::new(Pl(1));
-        unsafe {
-            track(&hl);
-            ENV_ON = true;
-            NONZERO_BUDGET = 0; // no delivery in flight, none arrives
-            SWAP_ASSUMED = 1;
-            reset_trace();
-        }
-        hl.write_barrier();
-        unsafe {
-            barrier_post(0);
-            assert!(count(LOCK_LOAD) == 2 && count(YIELD) == 0 && count(SPIN) == 0, "C18.QUIESCENT: with no delivery in flight the barrier completes on its own in one pass, without waiting for anyone");
-            ENV_ON = false;
-        }
-        std::mem::forget(hl);
-    }
 }
 
 // WriteGuard::store : swap -> barrier -> free(old), exactly once, by the writer
